@@ -1301,14 +1301,15 @@ fn shared_runs(cx: &mut Ctx, rng: &mut Rng, thorough: bool) {
     for t in ths {
         let large = t >= DIGEST_MIN;
         // large rows: K lines for a few shapes at the exact threshold, the oracle alone on the others
-        let kshapes: Vec<usize> = if thorough { (0..SHARED_SHAPES.len()).collect() } else { (0..3).map(|_| rng.below(SHARED_SHAPES.len() as u64) as usize).collect() };
+        // (thorough: every shape in the 64 KiB row, 6 shapes in the 16 / 32 KiB rows)
+        let kshapes: Vec<usize> = if thorough && t >= 65536 { (0..SHARED_SHAPES.len()).collect() } else { (0..(if thorough { 6 } else { 3 })).map(|_| rng.below(SHARED_SHAPES.len() as u64) as usize).collect() };
         for (si, shape) in SHARED_SHAPES.iter().enumerate() {
             // shared length at and around the threshold
             let ds: Vec<i64> = if thorough || t < REF_MIN { vec![0, 1, -1] } else { vec![0, *rng.pick(&[1i64, -1])] };
             for d in ds {
-                for rep in 0..(if thorough { 2 } else { 1 }) {
+                for rep in 0..(if thorough && !large { 2 } else { 1 }) {
                     let l = (t as i64 + d) as usize;
-                    let k_lines = !large || (d == 0 && rep == 0 && kshapes.contains(&si));
+                    let mut k_lines = !large || (d == 0 && rep == 0 && kshapes.contains(&si));
                     let kind = loop {
                         let k = match rng.below(10) {
                             0..=3 => Kind::Noise,
@@ -1322,6 +1323,10 @@ fn shared_runs(cx: &mut Ctx, rng: &mut Rng, thorough: bool) {
                         if large && (k_lines || t > DIGEST_MIN) && matches!(k, Kind::Periodic(..)) { continue; }
                         break k;
                     };
+                    // bsdiff's scan is quadratic on long periodic contents (`search` ends on a 2-byte match
+                    // when new is larger than every suffix of old; the scan then advances 2 bytes per
+                    // search): above 4 KiB the model, ~20x slower than the real builder there, is left out
+                    if t > REF_MIN && matches!(kind, Kind::Periodic(..)) { k_lines = false; }
                     // unshared parts: tiny / medium / large (thorough: also as long as the shared run)
                     let mut hs = vec![1usize, rng.range(2, 8) as usize, 40, 300, 5000];
                     if thorough { hs.push(l); }
@@ -1330,7 +1335,9 @@ fn shared_runs(cx: &mut Ctx, rng: &mut Rng, thorough: bool) {
                     cx.s.tally(&format!("shared.content.{}", kind_name(&kind)));
                     if !k_lines { cx.s.tally("shared.oracle-only"); }
                     cx.sblks = vec![*rng.pick(&SBLKS)];
-                    let cb = *rng.pick(&[64usize, 256, 4096, 1 << 20]);
+                    // (a 64 KiB pair in 64-byte chunks is 1024 control entries, and the list-based patcher
+                    //  models walk old from its start for each)
+                    let cb = if large && k_lines { *rng.pick(&[1024usize, 4096, 1 << 20]) } else { *rng.pick(&[64usize, 256, 4096, 1 << 20]) };
                     cx.st.quiet = !k_lines;
                     pair(cx, rng, &old, &new, &[cb], &format!("shared.{shape}"));
                     cx.st.quiet = false;
@@ -1349,7 +1356,8 @@ fn shared_runs(cx: &mut Ctx, rng: &mut Rng, thorough: bool) {
                     cx.s.tally(&format!("shared.length.{t}.same-period-{per}"));
                     cx.sblks = vec![*rng.pick(&SBLKS)];
                     let cb = *rng.pick(&[64usize, 256, 4096, 1 << 20]);
-                    cx.st.quiet = large;
+                    cx.st.quiet = t > REF_MIN;
+                    if cx.st.quiet { cx.s.tally("shared.oracle-only"); }
                     pair(cx, rng, &cycle(&u, n), &cycle(&u, m), &[cb], "shared.same-period");
                     cx.st.quiet = false;
                 }
@@ -1368,7 +1376,7 @@ fn main() {
     let args = Args::parse();
     quiet_panics();
     let mut s = Session::new(&args.out);
-    s.rule = "every (old,new) over {a,b} with both lengths <= L (L=4 quick, 6 thorough) x {simple, chunked blk in {0,1,4,64}, suffix, suffix under max_diff_block_size 1 / 2 [/ 3]} x {memory, streaming buf 1024[,4096]}; the SUFFIX builder under a configured max_diff_block_size on every generated pair (1-2 sizes from {1,2,3,4,7,8,16,32} / {0,1,2,5,64,256,2^20,usize::MAX}) and a dedicated stream of equal runs of 21/24/28/32/48/64/96 bytes (exact multiples >= 2x of the block sizes, and not) followed by a deletion / insertion / replacement / move / repeat / two deletions / changed run, each under ALL of {1,2,3,4,7,8,16,32} (+ 0 / usize::MAX); LARGE BLOCKS (quick: one pair per family; thorough: 40 KB / 70 KB / 200 KB each): incompressible extra block of 16383..65537 bytes around the 16 / 32 / 64 KiB boundaries (3 sizes quick, 13 thorough), 40 000 noise bytes appended / prepended / inserted, 70 144 (thorough 200 192 = 256k) noise bytes inserted, incompressible diff block (every 3rd byte of 96 000 noise bytes changed; thorough also 160 000 / 4th, 200 000 / 8th), compressible diff block (70 000 [200 000] noise bytes with 3 point edits), compressible extra block (204 800 bytes: one byte / periodic / dictionary words [/ 4-letter noise]), 200 000 unrelated noise bytes, 7 500 [9 000] control entries (control block > 32 KiB as stored; quick: oracle only, thorough: also K) and a hand-made consistent patch of 4 500 [9 000] entries with 48-bit seeks (K + length clause) — through every builder, the memory patcher and streaming buffers 1024 / 65536 / 4096 [/ 1 / 16384 / 2^20] (quick: K lines for memory + 1024 + 65536, oracle on all), with blocks of >= 4096 bytes written as references (@c @d @e @p @zc @zd @ze, @sa) on request lines and byte strings of >= 16384 bytes answered as length + FNV-1a 64; LONG SHARED RUNS: old and new sharing a prefix and / or suffix of exactly T-1 / T / T+1 bytes for T in {256, 1 KiB, 4 KiB, 8 KiB, 64 KiB} [thorough: + 512, 2 KiB, 16 KiB, 32 KiB] (the bytes next to the run differ) with unshared parts of 1 / 2-8 / 40 / 300 / 5000 bytes [/ the run length] in 17 shapes — new = old, pure leading / trailing deletion / insertion (one side a proper suffix / prefix of the other), deletion / insertion / replacement (same and other length) in the middle with |prefix| + |suffix| = the length, one side an infix of the other, the run a suffix of one side and a prefix of the other, replacement before / behind the run, two edits / two deletions between the shared ends — over noise, 2- and 4-letter alphabets, periodic contents (period 1 / 2 / 7 / 256; also old = u^n, new = u^m where shared prefix and suffix overlap) and dictionary words, every builder incl. the suffix builder under a block size, memory patcher + streaming buffers 1024 / 65536 / 4096 + short-reading source (quick: all three lengths below 4 KiB, T and one neighbour from 4 KiB on; 64 KiB row: K lines for 3 shapes, oracle only on the others; no periodic content above 16 KiB — bsdiff's scan is quadratic there); seeded random pairs to 4 KiB (edits: insert/delete/move/repeat/replace/point, empty old, empty new, equal, unrelated; alphabets 2, 4, 256) incl. a dedicated stream whose change is followed by >= 264 unchanged bytes with the inserted length a multiple of 256 or a periodic tail (the only way the chunked builder re-synchronises after an extra run), match runs of length 3/4/5 around the >=4 threshold, block sizes around the match length; mutated patches (sizes +-1, truncated blocks, seeks before 0 / beyond EOF / saturating, dropped / appended / invalid / partial control records) for the length clause. every built patch also as WHOLE BYTES (buildp: model-assembled header + framing vs the builder's bytes; applyp through apply_patch_memory and parse_from_patch + apply_patch_from_data) and through a short-reading old source (read() returns <= 1 / 1,2,3 / 7,1 / three random sizes / unbounded bytes per call); byte-level damage of real patches (header truncated at 0..31, body truncated, signature bit, each size field set to -1 / 0 / +-1 / 1e9 / 1e9+1 / i64::MIN / i64::MAX / the bytes available, sizes swapped, diff swallowing the extra block, trailing garbage, body bit flip) for the length clause on bytes and memory == streaming; hand-made headers around every validate comparison; the private offtout / offtin at i64::MIN, MIN+1, MAX, +-0, +-2^56, +-2^62 and random magnitudes of every bit length; unseekable source; default buffer. non-trivial = built patch has a diff run or >= 2 control entries (or is a mutated patch / codec value / header probe; short-read cases need a non-empty old); distinct = (builder, patcher, old, new) text".into();
+    s.rule = "every (old,new) over {a,b} with both lengths <= L (L=4 quick, 6 thorough) x {simple, chunked blk in {0,1,4,64}, suffix, suffix under max_diff_block_size 1 / 2 [/ 3]} x {memory, streaming buf 1024[,4096]}; the SUFFIX builder under a configured max_diff_block_size on every generated pair (1-2 sizes from {1,2,3,4,7,8,16,32} / {0,1,2,5,64,256,2^20,usize::MAX}) and a dedicated stream of equal runs of 21/24/28/32/48/64/96 bytes (exact multiples >= 2x of the block sizes, and not) followed by a deletion / insertion / replacement / move / repeat / two deletions / changed run, each under ALL of {1,2,3,4,7,8,16,32} (+ 0 / usize::MAX); LARGE BLOCKS (quick: one pair per family; thorough: 40 KB / 70 KB / 200 KB each): incompressible extra block of 16383..65537 bytes around the 16 / 32 / 64 KiB boundaries (3 sizes quick, 13 thorough), 40 000 noise bytes appended / prepended / inserted, 70 144 (thorough 200 192 = 256k) noise bytes inserted, incompressible diff block (every 3rd byte of 96 000 noise bytes changed; thorough also 160 000 / 4th, 200 000 / 8th), compressible diff block (70 000 [200 000] noise bytes with 3 point edits), compressible extra block (204 800 bytes: one byte / periodic / dictionary words [/ 4-letter noise]), 200 000 unrelated noise bytes, 7 500 [9 000] control entries (control block > 32 KiB as stored; quick: oracle only, thorough: also K) and a hand-made consistent patch of 4 500 [9 000] entries with 48-bit seeks (K + length clause) — through every builder, the memory patcher and streaming buffers 1024 / 65536 / 4096 [/ 1 / 16384 / 2^20] (quick: K lines for memory + 1024 + 65536, oracle on all), with blocks of >= 4096 bytes written as references (@c @d @e @p @zc @zd @ze, @sa) on request lines and byte strings of >= 16384 bytes answered as length + FNV-1a 64; LONG SHARED RUNS: old and new sharing a prefix and / or suffix of exactly T-1 / T / T+1 bytes for T in {256, 1 KiB, 4 KiB, 8 KiB, 64 KiB} [thorough: + 512, 2 KiB, 16 KiB, 32 KiB] (the bytes next to the run differ) with unshared parts of 1 / 2-8 / 40 / 300 / 5000 bytes [/ the run length] in 17 shapes — new = old, pure leading / trailing deletion / insertion (one side a proper suffix / prefix of the other), deletion / insertion / replacement (same and other length) in the middle with |prefix| + |suffix| = the length, one side an infix of the other, the run a suffix of one side and a prefix of the other, replacement before / behind the run, two edits / two deletions between the shared ends — over noise, 2- and 4-letter alphabets, periodic contents (period 1 / 2 / 7 / 256; also old = u^n, new = u^m where shared prefix and suffix overlap) and dictionary words, every builder incl. the suffix builder under a block size, memory patcher + streaming buffers 1024 / 65536 / 4096 + short-reading source (quick: all three lengths below 4 KiB, T and one neighbour from 4 KiB on; 64 KiB row: K lines for 3 shapes, oracle only on the others; periodic contents above 4 KiB oracle only, none above 16 KiB — bsdiff's scan is quadratic there); seeded random pairs to 4 KiB (edits: insert/delete/move/repeat/replace/point, empty old, empty new, equal, unrelated; alphabets 2, 4, 256) incl. a dedicated stream whose change is followed by >= 264 unchanged bytes with the inserted length a multiple of 256 or a periodic tail (the only way the chunked builder re-synchronises after an extra run), match runs of length 3/4/5 around the >=4 threshold, block sizes around the match length; mutated patches (sizes +-1, truncated blocks, seeks before 0 / beyond EOF / saturating, dropped / appended / invalid / partial control records) for the length clause. every built patch also as WHOLE BYTES (buildp: model-assembled header + framing vs the builder's bytes; applyp through apply_patch_memory and parse_from_patch + apply_patch_from_data) and through a short-reading old source (read() returns <= 1 / 1,2,3 / 7,1 / three random sizes / unbounded bytes per call); byte-level damage of real patches (header truncated at 0..31, body truncated, signature bit, each size field set to -1 / 0 / +-1 / 1e9 / 1e9+1 / i64::MIN / i64::MAX / the bytes available, sizes swapped, diff swallowing the extra block, trailing garbage, body bit flip) for the length clause on bytes and memory == streaming; hand-made headers around every validate comparison; the private offtout / offtin at i64::MIN, MIN+1, MAX, +-0, +-2^56, +-2^62 and random magnitudes of every bit length; unseekable source; default buffer. non-trivial = built patch has a diff run or >= 2 control entries (or is a mutated patch / codec value / header probe; short-read cases need a non-empty old); distinct = (builder, patcher, old, new) text".into();
     let mut rng = Rng::new(args.seed);
     let mut st = St { old: vec![], new: vec![], last: None, patch: None, quiet: false };
 
